@@ -124,7 +124,7 @@ theorem coh_of_sig {s : St α} (hl : SomeExcept [] s.spans) (hs : (s.spans.size 
 
 /-- **the invariant after an event with conserved winding** -/
 theorem coh_after {s0 s' : St α} {scan : Scan} {W : List Int} (hok : ScanOk s0 scan) (hsem : ScanSem s0 scan)
-    (hc : Coh s0) (hH : HorizAgree s0.tolerance) (hev : EventOkW s0 scan W)
+    (hc : Coh s0) (hG : ScanAgree s0 scan) (hev : EventOkW s0 scan W)
     (hN : NewSt s0 scan (s0.spans.size - cntIn s0 scan.aboveStart scan.aboveEnd + bi scan.splitEvent +
       gapsFrom s0.rule (Wat s0 scan.aboveStart) true W) W s') : Coh s' := by
   have hab := hok.start_le
@@ -178,7 +178,7 @@ theorem coh_after {s0 s' : St α} {scan : Scan} {W : List Int} (hok : ScanOk s0 
       (if scan.aboveStart < scan.aboveEnd ∧ (Wat s0 scan.aboveEnd).isIn = true then (1 : Nat) else 0 : Nat) =
       (bi scan.splitEvent : Int) := by
     by_cases hm : scan.mergeEvent = true
-    · have hlt := hok.merge_room hH hm
+    · have hlt := hG.1 hm
       have hin := (hsem.merge hm).2.1
       have hsp : scan.splitEvent = false := by
         cases h : scan.splitEvent
@@ -220,7 +220,7 @@ theorem coh_after {s0 s' : St α} {scan : Scan} {W : List Int} (hok : ScanOk s0 
             · cases h : scan.splitEvent
               · rfl
               · have := (hsem.split h).2.1; rw [heq, hi] at this; cases this
-            · exact hsem.split_of_in hH heq (by rw [heq]; exact hi)
+            · exact hG.2 heq (by rw [heq]; exact hi)
           rw [hsp]
           cases (Wat s0 scan.aboveEnd).isIn <;> simp [bi, hlt]
   -- assemble
